@@ -232,18 +232,21 @@ func frozenField(v ssa.Value, depth int) (string, string) {
 	return "", ""
 }
 
-// wiring: functions that set the configuration objects up (constructors and registration), by naming convention
+// wiring: a function that is not handed a transaction (no *bbolt.Tx, mutate / indexing / persist context or typed bucket
+// among its parameters or those of the function it is nested in) cannot be running inside one: it is set-up code,
+// which is where configuration objects are filled in
 func wiring(fn *ssa.Function) bool {
-	n := fn.Name()
-	if fn.Parent() != nil {
-		return wiring(fn.Parent())
-	}
-	for _, p := range []string{"New", "new", "Add", "add", "Init", "init", "Make", "make", "Map", "Extended"} {
-		if strings.HasPrefix(n, p) {
-			return true
+	for f := fn; f != nil; f = f.Parent() {
+		for _, p := range f.Params {
+			ts := p.Type().String()
+			for _, k := range []string{"bbolt.Tx", "boltz.MutateContext", "boltz.IndexingContext", "boltz.PersistContext", "boltz.TypedBucket"} {
+				if strings.Contains(ts, k) {
+					return false
+				}
+			}
 		}
 	}
-	return false
+	return true
 }
 
 func guarded(fn *ssa.Function) bool {
